@@ -23,10 +23,10 @@ TEXT = {
                   "general path: blade = floor(nt/(pi/2)) and blade*(pi/2)+rem = nt exactly, or snapped to the next blade within 1e-10; new_with_blade adds exactly k "
                   "blades; scalar sign law. Proved (B, rounded arithmetic): the raw total is within 8*2^-53 relative of p*pi_f/d in both orders of operations; for p>=0, "
                   "d>0 and either path blade*(pi_f/2)+rem is p*pi_f/d within 1e-10 + 8*2^-53 relative, hence blade = floor(2p/d) whenever p*pi_f/d is clear of a quarter- "
-                  "turn boundary by that margin; Angle::new(x, PI) for x<0 is x plus a whole number of turns within 1e-10 + (14|x|+46)*2^-53. Proved (E, exact reals): "
-                  "Angle::new(p,d) denotes p*pi/d modulo whole turns within 1e-10 for every real p,d and every path (fast, negative, general), a negative argument gives "
-                  "the forward rotation; new_from_cartesian has total arg(x+iy) and the Euclidean norm. Partial: negative p/d with a general divisor in rounded "
-                  "arithmetic (E-tier + oracle with exact rational floor(2p/d)). "),
+                  "turn boundary by that margin; any negative p/d on the general path gives X = p*pi_f/d plus a whole number of turns within 1e-10 + (14|X|+46)*2^-53 (a "
+                  "forward rotation in the same direction). Proved (E, exact reals): Angle::new(p,d) denotes p*pi/d modulo whole turns within 1e-10 for every real p,d "
+                  "and every path (fast, negative, general), a negative argument gives the forward rotation; new_from_cartesian has total arg(x+iy) and the Euclidean "
+                  "norm. Partial: 'at most one turn unless 2p/d is an integer' for negative p/d in rounded arithmetic (E-tier + oracle with exact rational floor(2p/d)). "),
          "note": S_NOTE},
  "C03": {"level": ("Proved for all canonical angles of any blade count: 12 spellings identical (G), bit-for-bit commutativity, zero identity, blade = sum with at most one "
                   "carry, invariant preserved, |T(a+b) - (T a + T b)| < 1e-10 + 1e-15 in rounded arithmetic (S); associativity of totals within twice the tolerance (at "
@@ -103,8 +103,8 @@ TEXT = {
          "note": S_NOTE},
  "C15": {"level": ("Proved: tan = sin.div(cos), adj/opp = cos/sin scaled (definitional), cos/sin = |libm value| at base or base+pi iff the value tests negative (G); "
                   "lattice placement (cos on blade 0/2, sin on blade 1/3, remainder 0), magnitudes in [0,1] (S); magnitudes within the libm error of |cos T|,|sin T| for "
-                  "the true-pi total in rounded arithmetic (B); cos^2+sin^2=1, |tan T| off the poles with odd grade and period pi, adj/opp are the Cartesian components "
-                  "(E). "),
+                  "the true-pi total, and adj/opp magnitudes |g||cos T|, |g||sin T| within |g|(6e-15+2^-53), in rounded arithmetic (B); cos^2+sin^2=1, |tan T| off the "
+                  "poles with odd grade and period pi, adj/opp are the Cartesian components (E). "),
          "note": S_NOTE},
  "C16": {"level": ("Proved: == implies identical blades; Geonum == adds magnitude; partial_cmp = Some(cmp) (G); cmp is the lexicographic order on (blade, remainder "
                   "value): never panics on finite fields, reflexive, antisymmetric, transitive, total; cmp=Equal implies ==; == implies remainders within 1e-15 (S); over "
